@@ -647,10 +647,23 @@ impl<R: Read + Seek> LogIterator<R> {
         }
         self.buffer_idx = 0;
         self.buffer.clear();
+        match self.fill_buffer() {
+            Ok(true) => self.next_from_buffer(),
+            Ok(false) => Ok(None),
+            Err(err) => {
+                // Nothing of a batch that failed to load may be handed out by a later call.
+                self.buffer.clear();
+                Err(err)
+            }
+        }
+    }
+
+    // Load the next batch into the buffer.  Returns false at the end of the log.
+    fn fill_buffer(&mut self) -> Result<bool, SError> {
         let header = match self.next_frame()? {
             Some(header) => header,
             None => {
-                return Ok(None);
+                return Ok(false);
             }
         };
         if header.discriminant == HEADER_WHOLE {
@@ -677,7 +690,7 @@ impl<R: Read + Seek> LogIterator<R> {
                 self.input.stream_position().unwrap_or(0),
             ));
         }
-        self.next_from_buffer()
+        Ok(true)
     }
 
     fn next_from_buffer(&mut self) -> Result<Option<KeyValueRef<'_>>, SError> {
